@@ -21,11 +21,11 @@ Ltac fin :=
   try assumption; try reflexivity; try discriminate; try (intros; discriminate); auto.
 
 Lemma step_LI n tr0 s q c evs s' c' e :
-  LI n tr0 s q c evs -> step_thread n (in_window c) s q c = Some (s', c', e) ->
+  LI n tr0 s q c evs -> step_thread n s q c = Some (s', c', e) ->
   LI n tr0 s' q c' (e ++ evs).
 Proof.
-  intros [P M K O Cs F] H.
-  pose proof (step_pc_ok _ _ _ _ _ _ _ _ H P) as P'.
+  intros [P M K O F] H.
+  pose proof (step_pc_ok _ _ _ _ _ _ _ H P) as P'.
   destruct c; simpl in H; try discriminate H.
   - (* PAcq *) step_inv H. destruct q; try discriminate P; fin.
   - (* PRel *) step_inv H; fin.
@@ -46,18 +46,9 @@ Proof.
   - (* PL_cas *) step_inv H; fin.
   - (* PS_flag *) step_inv H; fin.
   - (* PS_seed *) step_inv H; fin.
-  - (* PS_load *) step_inv H; fin. intros t E. injection E as <-. reflexivity.
-  - (* PS_cas *) step_inv H; fin. pose proof (Cs t eq_refl) as E.
-    destruct t; [reflexivity|]. unfold TQ in *; simpl. intros _. apply F. auto.
   - (* PS_verify *) step_inv H; fin.
-  - (* PS_gs_flag *) step_inv H; fin.
-  - (* PS_gs_seed *) step_inv H; fin.
+  - (* PS_hasseed *) step_inv H; fin.
   - (* PS_write *) step_inv H; fin.
-  - (* PS_restore *) step_inv H; fin.
-    + apply TQ_locked. assumption.
-    + destruct t; simpl in F.
-      * apply TQ_locked. reflexivity.
-      * unfold TQ in *; simpl. intros _. apply F. assumption.
   - (* PX_flag *) step_inv H; fin. rewrite O, (auth_now _ _ K F) by assumption. reflexivity.
   - (* PX_seed *) step_inv H; fin.
   - (* PX_secret *) step_inv H; fin.
@@ -78,9 +69,9 @@ Lemma lrun_LI fuel : forall n tr0 s q c evs,
 Proof.
   induction fuel as [|f IH]; intros n tr0 s q c evs L.
   - simpl. split; [exact L|]. intro R. apply rank_zero. lia.
-  - destruct (step_thread n (in_window c) s q c) as [[[s1 c1] e1]|] eqn:E.
+  - destruct (step_thread n s q c) as [[[s1 c1] e1]|] eqn:E.
     + pose proof (step_LI _ _ _ _ _ _ _ _ _ L E) as L1.
-      pose proof (step_rank _ _ _ _ _ _ _ _ E) as R1.
+      pose proof (step_rank _ _ _ _ _ _ _ E) as R1.
       specialize (IH n tr0 s1 q c1 (e1 ++ evs) L1).
       assert (X : lrun (S f) n s q c evs = lrun f n s1 q c1 (e1 ++ evs)).
       { destruct c; try (simpl in E; discriminate E); cbn [lrun]; rewrite E; reflexivity. }
@@ -88,7 +79,7 @@ Proof.
       destruct IH as [A B]. split; [exact A|]. intro R. apply B. lia.
     + assert (D : exists r, c = PDone r).
       { destruct c; try (eexists; reflexivity).
-        all: exfalso; refine (step_progress n _ s q _ (li_pc _ _ _ _ _ _ L) _ _ E);
+        all: exfalso; refine (step_progress n s q _ (li_pc _ _ _ _ _ _ L) _ _ E);
           try (intros r0; discriminate).
         all: try (intro X; discriminate X).
         intros _. pose proof (li_mtx _ _ _ _ _ _ L) as M. simpl in M. exact M. }
@@ -116,21 +107,20 @@ Arguments run_thread : simpl never.
 
 Lemma QI_call g q : QI g -> QI (fst (call q g)).
 Proof.
-  intros [D M K T O]. unfold call. destruct g as [s ts tr sp ob]. simpl in *.
+  intros [D M K T O]. unfold call. destruct g as [s ts tr]. simpl in *.
   set (n := length ts).
   assert (L0 : LI n (ESpawn n q :: tr) s q (init_pc q) []).
   { constructor; simpl; try assumption.
     - destruct q; reflexivity.
     - rewrite M. destruct q; reflexivity.
-    - intros t E. destruct q; discriminate E.
     - unfold flag_clause. destruct q; simpl; exact T. }
   pose proof (lrun_LI 16 _ _ _ _ _ _ L0) as R.
-  pose proof (run_thread_lrun 16 ts s q (init_pc q) (ESpawn n q :: tr) sp ob D) as RT.
+  pose proof (run_thread_lrun 16 ts s q (init_pc q) (ESpawn n q :: tr)) as RT.
   cbv zeta in RT. fold n in RT.
   destruct (lrun 16 n s q (init_pc q) []) as [[s' c'] e].
   destruct R as [L1 Fin]. destruct RT as (Es & Et & Etr).
   destruct Fin as [r ->]. { destruct q; simpl; lia. }
-  destruct L1 as [P1 M1 K1' O1 _ F1]. simpl in *.
+  destruct L1 as [P1 M1 K1' O1 F1]. simpl in *.
   constructor; rewrite ?Es, ?Et, ?Etr.
   - rewrite forallb_app, D. reflexivity.
   - exact M1.
